@@ -42,7 +42,9 @@ class Ctx:
 # ----------------------------------------------------------------------------- build
 def build(ctx, flavour, targets=()):
     """Compile $(REPO)/htp/*.c in the given flavour plus the named harness programs; returns dict name->path."""
-    out = ctx.path("build")
+    if os.environ.get("VERIF_GCOV") and flavour in ("san", "alloc", "plain"):
+        flavour = "gcov"          # coverage measurement run (tools/coverage.sh): same programs, gcc --coverage, objects kept in VERIF_GCOV
+    out = os.environ["VERIF_GCOV"] if (flavour == "gcov") else ctx.path("build")
     goals = ["lib"] + [os.path.join(out, flavour, t) for t in targets]
     cmd = ["make", "-s", "-j%d" % NCPU, "-C", HARNESS, "OUT=" + out, "FLAVOUR=" + flavour, "REPO=" + REPO] + goals
     t = time.time()
